@@ -58,6 +58,12 @@ fn alphabet(n: usize, tier: Tier) -> Vec<Dev> {
             s.variants[i].message = Some(format!("m{}", i));
             true
         }));
+        // both in one deviation, so that attribute order (layout=reversed puts detailed_message first) is reachable at k = 2
+        d.push(dev(format!("v{}.message+detailed_message", i), &[&format!("msg{}", i), &format!("det{}", i)], move |s| {
+            s.variants[i].message = Some(format!("m{}", i));
+            s.variants[i].detailed_message = Some(format!("d{} é", i));
+            true
+        }));
         d.push(dev(format!("v{}.detailed_message", i), &[&format!("det{}", i)], move |s| {
             s.variants[i].detailed_message = Some(format!("d{} é", i));
             true
@@ -156,7 +162,7 @@ pub fn check(ctx: &mut Ctx, obs: Vec<(usize, Option<String>, Option<String>, Opt
         let a = ctx.expect_eq("get_message", &who, &format!("{:?}", refsem::msg(v)), &format!("{:?}", m));
         let b = ctx.expect_eq("get_detailed_message", &who, &format!("{:?}", refsem::detail(v)), &format!("{:?}", d));
         let c = ctx.expect_eq("get_documentation", &who, &format!("{:?}", refsem::doc(v)), &format!("{:?}", doc));
-        let e = ctx.expect_eq("get_serializations", &who, &format!("{:?}", refsem::spellings(&spec, v)), &format!("{:?}", ser));
+        let e = ctx.expect_eq("get_serializations", &who, &format!("{:?}", refsem::as_set(&refsem::spellings(&spec, v))), &format!("{:?}", refsem::as_set(&ser)));
         if has_attr || v.disabled {
             for (ok, g) in [(a, "m"), (b, "d"), (c, "doc"), (e, "ser")] {
                 if ok {
